@@ -37,6 +37,10 @@ SELECTIONS = [
     ("int", ["--set", "plugins.md013.line_length=$#12"], [("int", "plugins.md013.line_length", 12)]),
     ("bool", ["--set", "plugins.md009.strict=$!True"], [("bool", "plugins.md009.strict", True)]),
     ("str", ["--set", "plugins.md004.style=dash"], [("str", "plugins.md004.style", "dash")]),
+    # a value strict mode rejects, with and without the stack-trace diagnostic: every entry point must refuse
+    ("strictbad", ["--strict-config", "--set", "plugins.md013.line_length=abc"], [("strict",), ("str", "plugins.md013.line_length", "abc")]),
+    ("strictbad-st", ["--stack-trace", "--strict-config", "--set", "plugins.md013.line_length=abc"], [("stack",), ("strict",), ("str", "plugins.md013.line_length", "abc")]),
+    ("strictok-st", ["--stack-trace", "--strict-config", "--set", "plugins.md013.line_length=$#12"], [("stack",), ("strict",), ("int", "plugins.md013.line_length", 12)]),
 ]
 
 
@@ -68,6 +72,10 @@ def _api(actions):
             a.set_boolean_property(act[1], act[2])
         elif act[0] == "str":
             a.set_string_property(act[1], act[2])
+        elif act[0] == "strict":
+            a.enable_strict_configuration()
+        elif act[0] == "stack":
+            a.enable_stack_trace()
     return a
 
 
@@ -99,9 +107,28 @@ def evaluate(payload):
 
     with app.Sandbox({"t.md": raw}) as sb:
         r = app.run_main(cli_args + ["scan", "t.md"], sb)
-        if r.rc == "timeout" or r.err.strip():
+        if r.rc == "timeout" or (r.err.strip() and not selname.startswith("strict")):
             res["outcome"] = "scan-error"
             res["count"] = {"skipped_scan_error": 1}
+            return res
+        if selname.startswith("strict") and "Error" in r.err:
+            # configuration refused on the command line: the API must refuse it as well
+            refused = {}
+            with app.in_sandbox(sb):
+                for name, call in (("scan_string", lambda a: a.scan_string(text)), ("scan_path", lambda a: a.scan_path("t.md")), ("fix_string", lambda a: a.fix_string(text))):
+                    try:
+                        call(_api(api_actions))
+                        refused[name] = False
+                    except PyMarkdownApiException:
+                        refused[name] = True
+            r2 = app.run_main(cli_args + ["scan-stdin"], sb, stdin_text=raw)
+            refused["stdin"] = "Error" in r2.err
+            res["feeds"] += 4
+            bad = sorted(k for k, v in refused.items() if not v)
+            if bad:
+                res["fail"] = ("config-error-not-raised-by:" + "+".join(bad), {"cli_stderr": r.err.strip()[-200:], "refused": refused})
+            res["outcome"] = res["fail"][0] if res["fail"] else "all-entry-points-refuse"
+            res["nontrivial"] = True
             return res
         obs["file"], other = _cli_tuples(r.out)
         r = app.run_main(cli_args + ["scan-stdin"], sb, stdin_text=raw)
